@@ -20,7 +20,7 @@ from vlib.core import Stage, Violation, fail
 ID = "C11"
 MANIFEST = {
     "category": "exploration",
-    "text": "Stateful generated-input search (Hypothesis RuleBasedStateMachine): histories of up to 30 (thorough 60) steps over a pool of condition and AHB expressions with known structure - parse (cache hit or miss), parse a fresh string, send a string through the resolver (which replaces time conditions), use a string as the body of a package and expand it, edit a previously returned tree (incl. the expanded one) in place (replace / delete / append / clear / reverse children, overwrite the rule name, at any depth; overwrite the .value or .type attribute of a token), flood both caches with 1100 distinct strings so that the 1024-entry LRU evicts, evaluate under an assignment. Invariant after every step: the tree returned for a string matches the AST it was rendered from and equals the pristine deep copy of the first parse in this history; evaluation equals the reference evaluator. Caches are cleared at the start of every history. A second stage (cold-start) executes parse / flood / re-parse traces in a freshly started interpreter, so that the first use of both parsers in a process is judged as well; a quarter of the AHB pool strings (half of them there) carry no-break or other Unicode spaces inside their condition parts, which the AHB parser on its own must hand back unchanged. The cold-start traces also contain expressions nested 245-340 levels deep and in-place edits of the returned trees (the child interpreter has the default recursion limit).",
+    "text": "Stateful generated-input search (Hypothesis RuleBasedStateMachine): histories of up to 30 (thorough 60) steps over a pool of condition and AHB expressions with known structure - parse (cache hit or miss), parse a fresh string, send a string through the resolver (which replaces time conditions), use a string as the body of a package and expand it, edit a previously returned tree (incl. the expanded one) in place (replace / delete / append / clear / reverse children, overwrite the rule name, at any depth; overwrite the .value or .type attribute of a token), flood both caches with 1100 distinct strings so that the 1024-entry LRU evicts, evaluate under an assignment. Invariant after every step: the tree returned for a string matches the AST it was rendered from and equals the pristine deep copy of the first parse in this history; evaluation equals the reference evaluator. Caches are cleared at the start of every history. A second stage (cold-start) executes parse / flood / re-parse traces in a freshly started interpreter, so that the first use of both parsers in a process is judged as well; a quarter of the AHB pool strings (half of them there) carry no-break or other Unicode spaces inside their condition parts, which the AHB parser on its own must hand back unchanged. The cold-start traces also contain expressions nested 245-340 levels deep and in-place edits of the returned trees (the child interpreter has the default recursion limit). A further rule parses malformed strings (fixed list, pool strings with one bracket removed), which must be rejected with SyntaxError and leave no trace.",
     "note": "Trusted: ref.match / the AHB split oracle, the reference evaluator, copy.deepcopy of lark trees, Hypothesis' stateful engine. Histories are bounded in length; the flood rule runs at most once per history. Process configuration by shard (vlib/sut.py; recorded in replay files): plain / parse caches preheated beyond their size / warnings attributed to ahbicht raised as errors / logging fully enabled with every record rendered; one event loop per process or a new one per call; five process time zones; the hash seed is the shard number; namesakes of ahbicht's marshmallow schema classes are registered.",
     "technique": "stateful / model-based property testing (rule-based state machine over parse-edit-evict histories with a cache-independent oracle)",
 }
@@ -103,6 +103,8 @@ class Interpreter:
             self.expand(op["i"] % len(self.pool), op.get("time", False))
         elif kind == "evaluate":
             self.evaluate(op["i"] % len(self.pool), op["assignment"])
+        elif kind == "reject":
+            self.reject(op)
         else:
             raise ValueError(kind)
 
@@ -187,6 +189,27 @@ class Interpreter:
                 else:
                     token.type = "PACKAGE_KEY" if token.type != "PACKAGE_KEY" else "CONDITION_KEY"
         self.edited.add(index)
+
+    MALFORMED = ["([1)]", "(([1]U[2]", "[1", ")(", "[1]]", "(((", "[1] U", "[(1])", "((([1]", "[1])))", "[[["]
+
+    def reject(self, op):
+        """
+        a parse call with a malformed string - also part of the history.  The string is one of a fixed list or a pool
+        string with one bracket removed; it must be rejected with SyntaxError (if it happens to be well-formed: parsed).
+        """
+        parse_cond, _ = _parsers()
+        text = self.MALFORMED[op["pos"] % len(self.MALFORMED)]
+        entry = self.pool[op["i"] % len(self.pool)]
+        if op.get("derive") and entry["kind"] != "ahb" and not entry.get("deep"):
+            brackets = [i for i, c in enumerate(entry["s"]) if c in "[]()"]
+            cut = brackets[op["pos"] % len(brackets)]
+            text = entry["s"][:cut] + entry["s"][cut + 1 :]
+        res = sut.call(parse_cond, text)
+        wellformed = ref.accepts_condition(text)
+        if res.ok != wellformed or (not res.ok and not res.is_a(SyntaxError)):
+            fail("rejected", f"{text!r} is {'well-formed' if wellformed else 'malformed'} but the parser gave {str(res)[:200]} "
+                 f"(after {self.parses} parses, {self.floods} floods)")  # fmt: skip
+        self.rejects = getattr(self, "rejects", 0) + (0 if wellformed else 1)
 
     def resolve(self, index):
         """the string goes through the resolver (which parses it and replaces time conditions); result not judged here"""
@@ -273,6 +296,8 @@ def classify(case, info):
         labels.append("deeply-nested:edit-then-reparse")
     if any(op["op"] == "evaluate" for op in case["ops"]):
         labels.append("evaluates")
+    if any(op["op"] == "reject" for op in case["ops"]):
+        labels.append("with-rejected-strings")
     return labels, bool(info["reparse_after_edit"] or info["reparse_after_flood"])
 
 
@@ -433,6 +458,10 @@ def make_machine(tier, recorder):
         @rule(base=st.integers(100000, 900000))
         def flood(self, base):
             self._do({"op": "flood", "base": base})
+
+        @rule(index=st.integers(0, 50), pos=st.integers(0, 40), derive=st.booleans())
+        def reject(self, index, pos, derive):
+            self._do({"op": "reject", "i": index, "pos": pos, "derive": derive})
 
         @rule(index=st.integers(0, 50), assignment=st.fixed_dictionaries({k: st.sampled_from("FUK") for k in gen.RC_POOL[:4]}))
         def evaluate(self, index, assignment):
